@@ -110,31 +110,25 @@ def _always_returns(block: list[ast.stmt]) -> bool:
 
 
 def _returns_in_tail_position(block: list[ast.stmt]) -> bool:
-    """every Return is the last statement of the block or of an if-arm chain at its tail, or inside an
-    `if` whose arm always returns (then the rest of the block is that if's else)"""
+    """can `return e` be turned into an assignment?  Returns may sit in if-arms anywhere (the rest of
+    the block is then continued in the arms that fall through) and in a `with` that ends its block;
+    not in loops, try, match or nested functions."""
     for i, st in enumerate(block):
         if isinstance(st, ast.Return):
-            if i != len(block) - 1:
-                return False
-        elif isinstance(st, ast.If):
+            continue
+        has_ret = any(isinstance(n, ast.Return) for n in ast.walk(st))
+        if not has_ret:
+            continue
+        if isinstance(st, ast.If):
             if not (_returns_in_tail_position(st.body) and _returns_in_tail_position(st.orelse)):
                 return False
-            has_ret = any(isinstance(n, ast.Return) for n in ast.walk(st))
-            if has_ret and i != len(block) - 1:
-                # fine only if the arms that contain a return always return (rest = else part)
-                for arm in (st.body, st.orelse):
-                    if any(isinstance(n, ast.Return) for a in arm for n in ast.walk(a)) \
-                            and not _always_returns(arm):
-                        return False
+        elif isinstance(st, (ast.With, ast.AsyncWith)):
+            if i != len(block) - 1 or not _returns_in_tail_position(st.body):
+                return False
         elif isinstance(st, (ast.FunctionDef, ast.AsyncFunctionDef, ast.ClassDef)):
             continue
-        elif isinstance(st, (ast.With, ast.AsyncWith)):
-            if any(isinstance(n, ast.Return) for n in ast.walk(st)):
-                if i != len(block) - 1 or not _returns_in_tail_position(st.body):
-                    return False
         else:
-            if any(isinstance(n, ast.Return) for n in ast.walk(st)):
-                return False
+            return False
     return True
 
 
@@ -151,6 +145,18 @@ class _Sub(ast.NodeTransformer):
         return node
 
     def visit_arg(self, node: ast.arg):
+        return node
+
+    def visit_Call(self, node: ast.Call):
+        # `f(a, **fields)` where `fields` is the pass-through **kwargs of an inlined helper
+        new_kw = []
+        for k in node.keywords:
+            if k.arg is None and isinstance(k.value, ast.Name) and ('**' + k.value.id) in self.mapping:
+                new_kw.extend(clone(x) for x in self.mapping['**' + k.value.id])
+            else:
+                new_kw.append(k)
+        node.keywords = new_kw
+        self.generic_visit(node)
         return node
 
     def visit_Lambda(self, node):
@@ -495,8 +501,15 @@ class Normaliser:
 
     def _acceptable(self, callee: ast.FunctionDef) -> bool:
         a = callee.args
-        if a.vararg or a.kwarg or a.posonlyargs:
+        if a.vararg or a.posonlyargs:
             return False
+        if a.kwarg:
+            # only a pure pass-through: every use of the name is `**name` in a call
+            uses = [n for n in ast.walk(callee) if isinstance(n, ast.Name) and n.id == a.kwarg.arg]
+            passes = [k for n in ast.walk(callee) if isinstance(n, ast.Call) for k in n.keywords
+                      if k.arg is None and isinstance(k.value, ast.Name) and k.value.id == a.kwarg.arg]
+            if len(uses) != len(passes) or not passes:
+                return False
         for d in callee.decorator_list:
             if not (isinstance(d, ast.Name) and d.id in ('staticmethod', 'classmethod')):
                 return False
@@ -526,10 +539,9 @@ class Normaliser:
         mapping: dict[str, ast.AST] = {}
         if recv is not None and 'staticmethod' not in kinds and params:
             first = params.pop(0)
-            if 'classmethod' in kinds and isinstance(recv, ast.Name) and recv.id == 'self':
-                mapping[first] = ast.Call(func=ast.Name(id='type', ctx=ast.Load()), args=[recv], keywords=[])
-            else:
-                mapping[first] = recv
+            # a classmethod reached through an instance: class attributes and methods are found through
+            # the instance as well, so `cls` reads as `self`
+            mapping[first] = recv
         elif recv is None and params and params[0] in ('self', 'cls', 'clz') and 'staticmethod' not in kinds \
                 and not isinstance(call.func, ast.Name):
             return None
@@ -541,10 +553,16 @@ class Normaliser:
             return None
         for p, a in zip(params, call.args):
             actual[p] = a
+        extra_kw: list[ast.keyword] = []
         for k in call.keywords:
+            if k.arg is not None and k.arg not in params and k.arg not in kwonly and callee.args.kwarg:
+                extra_kw.append(k)
+                continue
             if k.arg is None or (k.arg not in params and k.arg not in kwonly) or k.arg in actual:
                 return None
             actual[k.arg] = k.value
+        if callee.args.kwarg:
+            mapping['**' + callee.args.kwarg.arg] = extra_kw        # type: ignore[assignment]
         for p in params + list(kwonly):
             if p not in actual:
                 d = dmap.get(p, kwonly.get(p))
@@ -566,33 +584,36 @@ class Normaliser:
                     ast.Assign(targets=[ast.Name(id=tgt, ctx=ast.Store())], value=clone(a)), call))
         return prelude, mapping, rename
 
-    def _to_sink(self, block: list[ast.stmt], sink) -> list[ast.stmt]:
+    def _to_sink(self, block: list[ast.stmt], sink, budget: list | None = None) -> list[ast.stmt]:
+        """the block with every `return e` replaced by sink(e); statements after an `if` that contains a
+        return are continued inside the arms that fall through"""
+        budget = budget if budget is not None else [400]
         out: list[ast.stmt] = []
         for i, st in enumerate(block):
             if isinstance(st, ast.Return):
                 out.extend(sink(st.value if st.value is not None else ast.Constant(value=None), st))
                 return out
-            if isinstance(st, ast.If) and any(isinstance(n, ast.Return) for n in ast.walk(st)):
+            has_ret = not isinstance(st, (ast.FunctionDef, ast.AsyncFunctionDef, ast.ClassDef)) \
+                and any(isinstance(n, ast.Return) for n in ast.walk(st))
+            if has_ret and isinstance(st, ast.If):
                 rest = block[i + 1:]
-                body = self._to_sink(st.body, sink) if _always_returns(st.body) or not rest \
-                    else self._to_sink(st.body + clone(rest), sink)
-                orelse_src = st.orelse
-                if _always_returns(st.body) and not _always_returns(st.orelse):
-                    orelse = self._to_sink(orelse_src + rest, sink)
-                elif not _always_returns(st.body) and _always_returns(st.orelse):
-                    orelse = self._to_sink(orelse_src, sink)
-                else:
-                    orelse = self._to_sink(orelse_src + (rest if not _always_returns(st.orelse) else []), sink)
-                node = ast.copy_location(ast.If(test=st.test, body=body or [ast.Pass()], orelse=orelse), st)
-                out.append(node)
+                budget[0] -= len(rest)
+                if budget[0] < 0:
+                    raise RecursionError('inlining would duplicate too much code')
+                body_src = st.body if _always_returns(st.body) else st.body + clone(rest)
+                else_src = st.orelse if _always_returns(st.orelse) else st.orelse + clone(rest)
+                body = self._to_sink(body_src, sink, budget)
+                orelse = self._to_sink(else_src, sink, budget)
+                out.append(ast.copy_location(ast.If(test=st.test, body=body or [ast.Pass()], orelse=orelse), st))
                 return out
-            if isinstance(st, (ast.With, ast.AsyncWith)) and any(isinstance(n, ast.Return) for n in ast.walk(st)):
+            if has_ret and isinstance(st, (ast.With, ast.AsyncWith)):
                 w = clone(st)
-                w.body = self._to_sink(st.body, sink) or [ast.Pass()]
+                w.body = self._to_sink(st.body, sink, budget) or [ast.Pass()]
                 out.append(w)
                 return out
             out.append(st)
-        out.extend(sink(ast.Constant(value=None), block[-1] if block else None) if sink.needs_value else [])
+        if sink.needs_value:
+            out.extend(sink(ast.Constant(value=None), block[-1] if block else None))
         return out
 
     def _inline_calls(self, fn, rel, mod, cls, stack, depth) -> bool:
